@@ -469,7 +469,11 @@ class NDNApp:
         :type name: :any:`NonStrictName`
         """
         name = Name.normalize(name)
-        del self._prefix_tree[name]
+        try:
+            del self._prefix_tree[name]
+        except KeyError:
+            # Registered without a callback function
+            pass
         # Fix the issue that NFD only allows one packet signed by a specific key for a timestamp number
         async with self._prefix_register_semaphore:
             await self._wait_for_fresh_timestamp()
